@@ -3,7 +3,8 @@
 // The five std-iterator expressions of the original (`values().any(..)`, `values().fold(..)`, two
 // `for x in values_mut() { *x -= d }` loops, `buffer[i]`, `frames_read[&key]`) are read through helper methods of the
 // stand-ins (R-subst, listed per function): a change INSIDE one of those expressions loses its anchor (exit 2).
-// NOT verified: Bus::send / Output plumbing (Rc<RefCell<..>>), Drop glue.
+// Bus::send and the Output methods are verified with the RefCell borrow read as a parameter (R-refcell); the Rc/RefCell
+// handle itself and the drop glue that calls Drop::drop are not verified.
 use vstd::prelude::*;
 use vstd::std_specs::ops::*;
 use vstd::std_specs::cmp::*;
@@ -237,6 +238,49 @@ pub open spec fn next_frame_post<F>(key: usize, m: Map<usize, usize>, buf: Seq<F
 //@end
 //@endimpl
 
+
+// Output plumbing: each method forwards to the SharedNode method with ITS OWN key (R-refcell: `self.node.borrow[_mut]()`
+// is read as the parameter `node`, `self.key` as the parameter `key`; the Rc/RefCell handle itself is not verified)
+//@fn file=dasp_signal/src/bus.rs in="impl:<S> Output<S>" name=pending_frames label=Output::pending_frames "sig=fn output_pending_frames<S: Signal>(key: usize, node: &SharedNode<S>) -> (r: usize)" "rules=R-subst:self.node.borrow()=>node,R-subst:self.key=>key"
+//@spec
+        requires node.wf(), node.frames_read.view().dom().contains(key),
+        ensures r == node.buffer.view().len() - node.frames_read.view()[key],
+//@end
+
+//@fn file=dasp_signal/src/bus.rs in="impl:<S> Signal for Output<S>" name=next label=Output::next "sig=fn output_next<S: Signal>(key: usize, node: &mut SharedNode<S>) -> (r: S::Frame)" "rules=R-subst:self.node.borrow_mut()=>node,R-subst:self.key=>key"
+//@spec
+        requires old(node).wf(), old(node).frames_read.view().dom().contains(key),
+            old(node).buffer.view().len() < usize::MAX,
+        ensures
+            final(node).wf(), final(node).signal.cfg() == old(node).signal.cfg(),
+            final(node).frames_read.view().dom() == old(node).frames_read.view().dom(),
+            next_frame_post(key, old(node).frames_read.view(), old(node).buffer.view(), r,
+                            final(node).frames_read.view(), final(node).buffer.view()),
+            old(node).frames_read.view()[key] >= old(node).buffer.view().len() ==>
+                S::trans(old(node).signal.cfg(), old(node).signal.st(), r, final(node).signal.st()),
+            old(node).frames_read.view()[key] < old(node).buffer.view().len() ==>
+                final(node).signal.st() == old(node).signal.st(),
+//@end
+
+//@fn file=dasp_signal/src/bus.rs in="impl:<S> Signal for Output<S>" name=is_exhausted label=Output::is_exhausted "sig=fn output_is_exhausted<S: Signal>(key: usize, node: &SharedNode<S>) -> (r: bool)" "rules=R-subst:let node = self.node.borrow();=>,R-subst:self.key=>key"
+//@spec
+        requires node.wf(), node.frames_read.view().dom().contains(key), node.signal.inv(),
+        // exhausted exactly when nothing is pending for THIS output and the source is exhausted
+        ensures r == (node.buffer.view().len() - node.frames_read.view()[key] == 0 && S::exh(node.signal.st())),
+//@end
+
+//@fn file=dasp_signal/src/bus.rs in="impl:<S> Drop for Output<S>" name=drop label=Output::drop "sig=fn output_drop<S: Signal>(key: usize, node: &mut SharedNode<S>)" "rules=R-subst:self.node.borrow_mut()=>node,R-subst:self.key=>key"
+//@spec
+        requires old(node).wf(),
+        ensures
+            final(node).wf(), final(node).signal == old(node).signal,
+            final(node).frames_read.view().dom() == old(node).frames_read.view().dom().remove(key),
+            exists|d: usize| d <= old(node).buffer.view().len()
+                && #[trigger] final(node).buffer.view() =~= old(node).buffer.view().subrange(d as int, old(node).buffer.view().len() as int)
+                && (forall|k: usize| final(node).frames_read.view().dom().contains(k) ==>
+                        #[trigger] final(node).frames_read.view()[k] == old(node).frames_read.view()[k] - d),
+            (forall|k: usize| !final(node).frames_read.view().dom().contains(k)) ==> final(node).buffer.view().len() == 0,
+//@end
 
 // ---------------------------------------------------------------------------------------------
 // The property (C13) as lemmas over the per-call contracts
